@@ -329,7 +329,7 @@ func c11(r *vlib.Run) int {
 	r.Extra("worker_wall_s", time.Since(start).Seconds())
 	for _, cr := range crashes {
 		var c c11Case
-		b, _ := json.Marshal(cases[cr.Index])
+		b, _ := json.Marshal(cases[cr.Any()])
 		json.Unmarshal(b, &c)
 		r.Violation("parser-crash-"+c.Class, map[string]interface{}{"query": c.Q, "query_hex": fmt.Sprintf("%x", c.Q),
 			"stderr": vlib.Trunc(string(cr.Result.Stderr), 3000)})
